@@ -24,15 +24,17 @@ step ::= ["new", slot, kind, spec]            construct an object into a named s
   (val = harness serialisation of a Python value, see `enc`)
 """
 import copy
+import functools
 import hashlib
 import json
 import math
 import re
+import sys
 
 import numpy as np
 import control as ct
 
-from core.runner import Family, Verdict, AGREE, VIOLATES, DIFFERS
+from core.runner import Family, Verdict, AGREE, VIOLATES, DIFFERS, load_known, match_known
 
 D = ct.config.defaults
 
@@ -42,6 +44,7 @@ D = ct.config.defaults
 _SAFE = set("abcdefghijklmnopqrstuvwxyzABCDEFGHIJKLMNOPQRSTUVWXYZ0123456789_.-")
 
 
+@functools.lru_cache(maxsize=None)
 def esc(s):
     if s == "":
         return "%e"
@@ -67,6 +70,34 @@ def _plain(v):
 
 
 def enc(v):
+    t = type(v)                      # fast paths (the configuration is serialised around every call)
+    if t is str:
+        return esc(v)
+    if v is None:
+        return "~n"
+    if t is bool:
+        return "~b1" if v else "~b0"
+    if t is int:
+        return "~i%d" % v
+    if t is float:
+        return "~f" + esc(repr(v))
+    if t is list or t is dict or t is tuple:
+        # nested values: `repr` is a complete deep-by-value key for the plain data the package
+        # keeps there (anything else prints its address and is simply not cached usefully)
+        key = (t, repr(v))
+        r = _ENC_CACHE.get(key)
+        if r is None:
+            if len(_ENC_CACHE) > 20000:
+                _ENC_CACHE.clear()
+            r = _ENC_CACHE[key] = _enc_slow(v)
+        return r
+    return _enc_slow(v)
+
+
+_ENC_CACHE = {}
+
+
+def _enc_slow(v):
     v = _plain(v)
     if isinstance(v, str):
         return esc(v)
@@ -111,12 +142,71 @@ ct.reset_defaults()
 IMP_RAW = copy.deepcopy(dict(D.data))
 IMP = [(k, enc(v)) for k, v in IMP_RAW.items()]
 IMP_KEYS = [k for k, _ in IMP]
+# the very objects the package holds at import time: after `reset_defaults` every entry of
+# config.defaults IS the object stored in the module-level default table it came from, so a
+# library function that builds something inside such an object changes the import-time value itself
+IMP_OBJ = dict(D.data)
+
+
+def _find_tables():
+    """every module-level default table of the package (`_<module>_defaults`), found by name"""
+    seen = {}
+    for mname in sorted(sys.modules):
+        mod = sys.modules[mname]
+        if mod is None or not (mname == "control" or mname.startswith("control.")) or ".tests" in mname:
+            continue
+        for a in sorted(vars(mod)):
+            v = vars(mod)[a]
+            if re.fullmatch(r"_\w+_defaults", a) and isinstance(v, dict) and v \
+                    and all(isinstance(k, str) and "." in k for k in v) and id(v) not in seen:
+                seen[id(v)] = ("%s.%s" % (mname.split(".")[-1], a), v)
+    return sorted(seen.values(), key=lambda nv: nv[0])
+
+
+TABLES = _find_tables()
+TABLES_RAW = {n: copy.deepcopy(t) for n, t in TABLES}
+
+
+def tables_snapshot():
+    return {"default-table %s[%s]" % (n, k): enc(v) for n, t in TABLES for k, v in t.items()}
+
+
+TABLES_ENC = tables_snapshot()
+
+
+def _repair(obj, raw):
+    """give a mutable default object its import-time value back, in place where possible (so
+    that the aliasing inside the package stays as it was at import)"""
+    if type(obj) is type(raw) and isinstance(obj, dict):
+        obj.clear()
+        obj.update(copy.deepcopy(raw))
+        return obj
+    if type(obj) is type(raw) and isinstance(obj, list):
+        obj[:] = copy.deepcopy(raw)
+        return obj
+    return copy.deepcopy(raw)
 
 
 def restore_config():
-    """put the real dictionary into the import-time state without going through the code under test"""
+    """put the real dictionary (and the default tables behind it) into the import-time state
+    without going through the code under test; entries alias the default tables as at import"""
+    if tables_snapshot() != TABLES_ENC:            # only after a patched library wrote into a table
+        for n, t in TABLES:
+            raw = TABLES_RAW[n]
+            for k in [k for k in t if k not in raw]:
+                del t[k]
+            for k, v in raw.items():
+                if k not in t or enc(t[k]) != enc(v):
+                    t[k] = _repair(t.get(k), v)
+    for n, t in TABLES:
+        for k in t:
+            if k in IMP_OBJ and enc(IMP_OBJ[k]) != enc(IMP_RAW[k]):
+                IMP_OBJ[k] = t[k] if enc(t[k]) == enc(IMP_RAW[k]) else _repair(IMP_OBJ[k], IMP_RAW[k])
+    for k in IMP_OBJ:
+        if enc(IMP_OBJ[k]) != enc(IMP_RAW[k]):
+            IMP_OBJ[k] = _repair(IMP_OBJ[k], IMP_RAW[k])
     D.data.clear()
-    D.data.update(copy.deepcopy(IMP_RAW))
+    D.data.update(IMP_OBJ)
     for a in ("saved_mapping", "temp_mapping"):
         if a in vars(D):
             delattr(D, a)
@@ -126,7 +216,50 @@ def restore_config():
 
 
 def cfg_snapshot():
+    """deep by value: nested lists / dicts inside a value are serialised recursively"""
     return {str(k): enc(v) for k, v in D.data.items()}
+
+
+def _classes():
+    names = ["InputOutputSystem", "LTI", "StateSpace", "TransferFunction", "FrequencyResponseData",
+             "NonlinearIOSystem", "InterconnectedSystem", "LinearICSystem", "TimeResponseData", "OperatingPoint",
+             "ControlPlot"]
+    return [getattr(ct, n) for n in names if isinstance(getattr(ct, n, None), type)]
+
+
+CLASSES = _classes()
+
+
+def class_snapshot():
+    """class-level data attributes (shared by all instances); the name counter is the one
+    documented exception and is modelled separately"""
+    out = {}
+    for cls in CLASSES:
+        for a, v in vars(cls).items():
+            if a.startswith("__") or a == "_idCounter" or callable(v) or \
+                    isinstance(v, (property, staticmethod, classmethod)) or hasattr(v, "__get__"):
+                continue
+            out["class-attribute %s.%s" % (cls.__name__, a)] = enc(v) if isinstance(v, (list, dict, tuple)) \
+                else repr(v)[:80]
+    return out
+
+
+def state_snapshot():
+    """what a library call must leave alone besides its operands: config.defaults (deep), the
+    default tables `reset_defaults` reads, class-level attributes, numpy's global random state"""
+    st = cfg_snapshot()
+    st.update(tables_snapshot())
+    st.update(class_snapshot())
+    r = np.random.get_state()
+    st["numpy.random state"] = "%s:%d" % (hashlib.sha1(r[1].tobytes()).hexdigest()[:12], r[2])
+    return st
+
+
+def rc_snapshot():
+    """matplotlib's rcParams (taken around plotting calls)"""
+    import matplotlib
+    return {"matplotlib.rcParams[%s]" % k: repr(v) for k, v in dict.items(matplotlib.rcParams)
+            if not k.startswith("backend")}
 
 
 # ----------------------------------------------------------------------------------------------
@@ -162,12 +295,33 @@ def dg(v, depth=0):
     return "<%s>" % type(v).__name__
 
 
+def _mutable(x):
+    return isinstance(x, (np.ndarray, list, dict, set, bytearray)) or \
+        (hasattr(x, "__dict__") and not isinstance(x, type) and not callable(x)) or hasattr(x, "ninputs")
+
+
+def _idents(items):
+    """which mutable objects sit where inside a caller-owned container (identity, not value:
+    compared only before/after a call inside one process)"""
+    return ",".join("%s:%x" % (k, id(x)) for k, x in items if _mutable(x))
+
+
 def snap(obj):
-    """attribute -> digest string (top level), for change reports"""
+    """attribute -> digest string (top level), for change reports.  Besides the value: for
+    arrays where the memory is (address, strides, writeable flag, base object), for lists and
+    dictionaries which mutable objects they hold (aliasing before/after)."""
     if isinstance(obj, np.ndarray):
-        return {"dtype": obj.dtype.str, "shape": str(obj.shape), "data": json.dumps(dg(obj))}
+        return {"dtype": obj.dtype.str, "shape": str(obj.shape), "data": json.dumps(dg(obj)),
+                "memory": "%x:%s:%s:%s" % (obj.__array_interface__["data"][0], obj.strides,
+                                           "rw" if obj.flags.writeable else "ro",
+                                           "own" if obj.base is None else "%x" % id(obj.base))}
     if hasattr(obj, "__dict__") and not callable(obj) or hasattr(obj, "ninputs"):
         return {k: json.dumps(dg(x, 1), sort_keys=True) for k, x in vars(obj).items() if not k.startswith("_")}
+    if isinstance(obj, (list, tuple)):
+        return {"value": json.dumps(dg(obj), sort_keys=True), "elements": _idents(enumerate(obj))}
+    if isinstance(obj, dict):
+        return {"value": json.dumps(dg(obj), sort_keys=True),
+                "elements": _idents(sorted(((str(k), x) for k, x in obj.items()), key=lambda kv: kv[0]))}
     return {"value": json.dumps(dg(obj), sort_keys=True)}
 
 
@@ -187,15 +341,46 @@ def kind_of(obj):
 # ----------------------------------------------------------------------------------------------
 # operations of the public API
 # ----------------------------------------------------------------------------------------------
+def _fig_summary():
+    """what a user sees of the open figures, as far as it can depend on the configuration or on
+    earlier calls: per axes the labels / scales and per line its style, label and length"""
+    import matplotlib.pyplot as plt
+    from matplotlib.colors import to_hex
+    out = []
+    for num in plt.get_fignums():
+        fig = plt.figure(num)
+        axs = []
+        for ax in fig.get_axes():
+            lines = [[to_hex(l.get_color(), keep_alpha=True) if not isinstance(l.get_color(), np.ndarray)
+                      else "arr", float(l.get_linewidth()), str(l.get_linestyle()), str(l.get_marker()),
+                      str(l.get_label()) if not str(l.get_label()).startswith("_") else "_", len(l.get_xdata())]
+                     for l in ax.get_lines()]
+            axs.append([ax.get_title(), ax.get_xlabel(), ax.get_ylabel(), ax.get_xscale(), ax.get_yscale(), lines])
+        st = fig._suptitle.get_text() if getattr(fig, "_suptitle", None) is not None else ""
+        out.append([st, axs])
+    return out
+
+
 def _plot_and_close(f):
     def g(*a, **k):
         import matplotlib.pyplot as plt
+        plt.close("all")
         try:
             r = f(*a, **k)
+            summ = _fig_summary()
         finally:
             plt.close("all")
-        return None if r is None else type(r).__name__
+        return [None if r is None else type(r).__name__, summ]
     return g
+
+
+def _op_point(r):
+    return (r.states, r.inputs, r.outputs)
+
+
+def _nonlin(kind, c):
+    return {"sat": ct.saturation_nonlinearity, "relay": lambda b: ct.relay_hysteresis_nonlinearity(b, b / 2),
+            "backlash": ct.friction_backlash_nonlinearity}[kind](c)
 
 
 OPS = {
@@ -266,7 +451,10 @@ OPS = {
     "input_output_response": lambda s, T, U, X0=0, **kw: ct.input_output_response(s, T, U, X0, **kw),
     "step_info": lambda s: ct.step_info(s),
     "linearize": lambda s, x0, u0, **kw: ct.linearize(s, x0, u0, **kw),
-    "find_operating_point": lambda s, x0, u0, **kw: (lambda r: (r[0], r[1]))(ct.find_operating_point(s, x0, u0, **kw)),
+    "find_operating_point": lambda s, *a, **kw: _op_point(ct.find_operating_point(s, *a, **kw)),
+    "m_linearize": lambda s, x0, u0, **kw: s.linearize(x0, u0, **kw),
+    "lti_dynamics": lambda s, t, x, u: s.dynamics(t, x, u),
+    "lti_output": lambda s, t, x, u: s.output(t, x, u),
     "nl_call": lambda s, u, **kw: s(u, **kw),
     "nl_output": lambda s, t, x, u, **kw: s.output(t, x, u, **kw),
     "nl_dynamics": lambda s, t, x, u, **kw: s.dynamics(t, x, u, **kw),
@@ -275,18 +463,46 @@ OPS = {
     # utilities
     "unwrap": lambda a, period=2 * math.pi: ct.unwrap(a, period),
     "db2mag": lambda a: ct.db2mag(a), "mag2db": lambda a: ct.mag2db(a),
-    # plotting helpers (Agg backend); the figure is closed, the return value is ignored
-    "bode_plot": _plot_and_close(lambda s, **kw: ct.bode_plot(s, **kw)),
-    "nyquist_plot": _plot_and_close(lambda s, **kw: ct.nyquist_plot(s, **kw)),
+    # more functions taking caller-owned arrays / lists / dictionaries
+    "create_statefbk_iosystem": lambda s, K, *a, **kw: ct.create_statefbk_iosystem(s, K, *a, **kw),
+    "create_estimator_iosystem": lambda s, QN, RN, **kw: ct.create_estimator_iosystem(s, QN, RN, **kw),
+    "dlqr": lambda *a: ct.dlqr(*a), "lqe": lambda *a: ct.lqe(*a),
+    "care": lambda *a: ct.care(*a), "dare": lambda *a: ct.dare(*a),
+    "margin_arrays": lambda mag, phase, omega: ct.margin(mag, phase, omega),
+    "stability_margins_arrays": lambda mag, phase, omega: ct.stability_margins((mag, phase, omega)),
+    "describing_function": lambda kind, c, A, **kw: ct.describing_function(_nonlin(kind, c), A, **kw),
+    "markov": lambda Y, U, m, **kw: ct.markov(Y, U, m, **kw),
+    "eigensys_realization": lambda Y, r, **kw: ct.eigensys_realization(Y, r, **kw),
+    "correlation": lambda T, X, *a: ct.correlation(T, X, *a),
+    "step_info_arrays": lambda y, T, **kw: ct.step_info(y, timepts=T, **kw),
+    "sample_system": lambda s, Ts, **kw: ct.sample_system(s, Ts, **kw),
+    "model_reduction": lambda s, **kw: ct.model_reduction(s, **kw),
+    "combine_time_responses": lambda lst, **kw: ct.combine_time_responses(lst, **kw),
+    "nyquist_response": lambda s, *a, **kw: ct.nyquist_response(s, *a, **kw),
+    "singular_values_response": lambda s, *a, **kw: ct.singular_values_response(s, *a, **kw),
+    "pole_zero_map": lambda s: ct.pole_zero_map(s),
+    "root_locus_map": lambda s, *a: ct.root_locus_map(s, *a),
+    "gangof4_response": lambda P, C, *a, **kw: ct.gangof4_response(P, C, *a, **kw),
+    "tfdata": lambda s: ct.tfdata(s), "ssdata": lambda s: ct.ssdata(s),
+    # plotting (Agg backend): the figures are summarised (line styles, labels) and closed
+    "m_plot": _plot_and_close(lambda r, *fmt, **kw: r.plot(*fmt, **kw)),
+    "time_response_plot": _plot_and_close(lambda r, *fmt, **kw: ct.time_response_plot(r, *fmt, **kw)),
+    "gangof4_plot": _plot_and_close(lambda P, C, *a, **kw: ct.gangof4_plot(P, C, *a, **kw)),
+    "describing_function_plot": _plot_and_close(
+        lambda H, kind, c, A, *a, **kw: ct.describing_function_plot(H, _nonlin(kind, c), A, *a, **kw)),
+    "phase_plane_plot": _plot_and_close(lambda s, *a, **kw: ct.phase_plane_plot(s, *a, **kw)),
+    "bode_plot": _plot_and_close(lambda s, *a, **kw: ct.bode_plot(s, *a, **kw)),
+    "nyquist_plot": _plot_and_close(lambda s, *a, **kw: ct.nyquist_plot(s, *a, **kw)),
     "pzmap_plot": _plot_and_close(lambda s, **kw: ct.pole_zero_plot(s, **kw)),
     "resp_plot": _plot_and_close(lambda s, **kw: ct.step_response(s).plot(**kw)),
-    "nichols_plot": _plot_and_close(lambda s, **kw: ct.nichols_plot(s, **kw)),
-    "root_locus_plot": _plot_and_close(lambda s, **kw: ct.root_locus_plot(s, **kw)),
-    "singular_values_plot": _plot_and_close(lambda s, **kw: ct.singular_values_plot(s, **kw)),
+    "nichols_plot": _plot_and_close(lambda s, *a, **kw: ct.nichols_plot(s, *a, **kw)),
+    "root_locus_plot": _plot_and_close(lambda s, *a, **kw: ct.root_locus_plot(s, *a, **kw)),
+    "singular_values_plot": _plot_and_close(lambda s, *a, **kw: ct.singular_values_plot(s, *a, **kw)),
 }
 
 PLOT_OPS = {"bode_plot", "nyquist_plot", "pzmap_plot", "resp_plot", "nichols_plot", "root_locus_plot",
-            "singular_values_plot"}
+            "singular_values_plot", "m_plot", "time_response_plot", "gangof4_plot", "describing_function_plot",
+            "phase_plane_plot"}
 
 
 # static / dynamic nonlinear systems used in histories (functions must be stable objects)
@@ -302,13 +518,39 @@ def _nl_dyn_out(t, x, u, params):
     return params.get("c", 1.0) * np.asarray(x)
 
 
+def _nl2_upd(t, x, u, params):
+    a, b = params.get("a", 1.0), params.get("b", 0.5)
+    return np.array([x[1], -a * np.sin(x[0]) - b * x[1] + u[0]])
+
+
+def _nl2_out(t, x, u, params):
+    return np.array([x[0] + params.get("c", 0.0) * u[0], x[1]])
+
+
 def build(kind, spec, pool):
     """constructors: spec is a JSON dict; entries {"s": slot} are taken from the pool"""
     def R(x):
         return resolve(x, pool)
     kw = {k: R(v) for k, v in spec.get("kw", {}).items()}
     if kind == "arr":
-        return np.array(spec["v"], dtype=spec.get("dtype", "float64"))
+        a = np.array(spec["v"], dtype=spec.get("dtype", "float64"))
+        return np.asfortranarray(a) if spec.get("order") == "F" else a
+    if kind == "view":     # a view of a pool array (the caller keeps both)
+        b = R(spec["base"])
+        how = spec["how"]
+        if how == "reshape":
+            v = b.reshape(spec["shape"])
+        elif how == "slice":
+            v = b[tuple(slice(o, o + n) for o, n in zip(spec["off"], spec["shape"]))]
+        elif how == "stride":
+            v = b[::2]
+        elif how == "T":
+            v = b.T
+        else:
+            raise ValueError(how)
+        if not np.shares_memory(v, b) or list(v.shape) != list(spec["shape"]):
+            raise ValueError("not a view")
+        return v
     if kind == "oarr":     # 2-D object array of 1-D coefficient arrays
         rows = spec["v"]
         a = np.empty((len(rows), len(rows[0])), dtype=object)
@@ -328,16 +570,21 @@ def build(kind, spec, pool):
         return ct.tf(*args, **kw)
     if kind == "frd":
         return ct.frd(R(spec["data"]), R(spec["omega"]), **kw)
-    if kind == "nls":      # static nonlinear system
-        return ct.nlsys(None, _nl_static_out, inputs=1, outputs=1,
-                        params=dict(spec.get("params", {})), **kw)
-    if kind == "nld":
-        return ct.nlsys(_nl_dyn_upd, _nl_dyn_out, inputs=1, outputs=1, states=1,
-                        params=dict(spec.get("params", {})), **kw)
+    if kind in ("nls", "nld", "nld2"):
+        # params: a fresh dictionary, or (`pref`) a dictionary the caller keeps in the pool
+        params = R(spec["pref"]) if "pref" in spec else dict(spec.get("params", {}))
+        for k0 in ("inputs", "outputs", "states"):
+            kw.setdefault(k0, {"nls": 1, "nld": 1, "nld2": {"inputs": 1}.get(k0, 2)}[kind])
+        if kind == "nls":      # static nonlinear system
+            kw.pop("states")
+            return ct.nlsys(None, _nl_static_out, params=params, **kw)
+        if kind == "nld":
+            return ct.nlsys(_nl_dyn_upd, _nl_dyn_out, params=params, **kw)
+        return ct.nlsys(_nl2_upd, _nl2_out, params=params, **kw)
     if kind == "dict":
-        return dict(spec["v"])
+        return {k: R(x) for k, x in copy.deepcopy(spec["v"]).items()}
     if kind == "list":
-        return [R(x) for x in spec["v"]]
+        return [R(x) for x in copy.deepcopy(spec["v"])]
     raise ValueError(kind)
 
 
@@ -358,7 +605,28 @@ def resolve(x, pool):
         return complex(x["cplx"][0], x["cplx"][1])
     if isinstance(x, dict) and set(x.keys()) == {"lst"}:      # list containing references
         return [resolve(y, pool) for y in x["lst"]]
+    if isinstance(x, dict) and set(x.keys()) == {"tup"}:      # tuple containing references
+        return tuple(resolve(y, pool) for y in x["tup"])
+    if isinstance(x, (list, dict)):                           # literal: the callee gets its own copy
+        return copy.deepcopy(x)
     return x
+
+
+def is_ref(x):
+    return isinstance(x, dict) and set(x.keys()) == {"s"}
+
+
+def arg_of(st, slot):
+    """where a pool object is passed in a call: 'arg<i>' / keyword name (first occurrence)"""
+    if st[0] not in ("op", "probe"):
+        return None
+    for i, x in enumerate(st[3]):
+        if slot in slots_in(x, []):
+            return "arg%d" % i
+    for kk in sorted(st[4]):
+        if slot in slots_in(st[4][kk], []):
+            return kk
+    return None
 
 
 def slots_in(x, acc):
@@ -397,6 +665,7 @@ class Runner:
         self.pool = {}
         self.probes = {}
         self.plots = False
+        self.pool0 = self.state0 = None      # observation after the previous library call
 
     def exec_cfg(self, st):
         k = st[0]
@@ -426,16 +695,20 @@ class Runner:
         """runs a step; appends the outputs of the calls; raises what the call raises"""
         k = st[0]
         if k == "with":
+            self.state0 = None
             try:
                 with D({a: dec(b) for a, b in st[1]}):
                     for s2 in st[2]:
                         self.exec_step(s2, outs)
+                    self.state0 = None
             except Exception as e:
+                self.state0 = None
                 outs.append(["raised", exc_kind(e)])
                 raise
             outs.append(["done"])
             return
         if k in CFG_KINDS:
+            self.state0 = None
             try:
                 outs.append(self.exec_cfg(st))
             except Exception as e:
@@ -443,36 +716,65 @@ class Runner:
                 raise
             return
         if k in ("new", "op", "probe"):
-            pool0 = self.pool_snapshot()
-            cfg0 = cfg_snapshot()
+            # the observation after the previous call is the observation before this one (only
+            # harness code and configuration calls, which drop `state0`, ran in between)
+            pool0 = self.pool0 if self.pool0 is not None else self.pool_snapshot()
+            cfg0 = self.state0 if self.state0 is not None else state_snapshot()
+            opname = st[2]
+            rc0 = rc_snapshot() if opname in PLOT_OPS else None
             try:
                 self.exec_lib(st, outs)
             finally:
-                opname = st[2]
                 used = slots_in(st, [])
-                for m in self.pool_changes(pool0):
-                    self.rec["mut"].append(m + [opname, "operand" if m[0] in used else "bystander"])
-                cfg1 = cfg_snapshot()
-                for key in sorted(set(cfg0) | set(cfg1)):
-                    if cfg0.get(key) != cfg1.get(key):
-                        self.rec["libcfg"].append([opname, key])
+                pool1 = self.pool_snapshot()
+                for m in self.pool_changes(pool0, pool1):
+                    self.rec["mut"].append(m + [opname, "operand" if m[0] in used else "bystander",
+                                                arg_of(st, m[0]) if m[0] in used else None])
+                cfg1 = state_snapshot()
+                if rc0 is not None:
+                    cfg0 = dict(cfg0, **rc0)
+                    cfg1 = dict(cfg1, **rc_snapshot())
+                if cfg0 != cfg1:
+                    for key in sorted(set(cfg0) | set(cfg1), key=lambda q: (" " in q or q.startswith("matplotlib."), q)):
+                        if cfg0.get(key) != cfg1.get(key):
+                            self.rec["libcfg"].append([opname, key, str(cfg0.get(key))[:80], str(cfg1.get(key))[:80]])
+                self.pool0, self.state0 = pool1, (state_snapshot() if rc0 is not None else cfg1)
             return
         raise ValueError(k)
 
     def pool_snapshot(self):
         return {s: (id(o), snap(o)) for s, o in self.pool.items()}
 
-    def pool_changes(self, pool0):
+    def pool_changes(self, pool0, pool1=None):
         mut = []
+        if pool1 is None:
+            pool1 = self.pool_snapshot()
         for s, (i0, s0) in pool0.items():
-            o = self.pool.get(s)
-            if o is None or id(o) != i0:
+            if s not in pool1 or pool1[s][0] != i0:
                 continue
-            s1 = snap(o)
+            s1 = pool1[s][1]
+            if s0 == s1:
+                continue
+            o = self.pool[s]
             for a in sorted(set(s0) | set(s1)):
                 if s0.get(a) != s1.get(a):
                     mut.append([s, kind_of(o), a, (s0.get(a) or "")[:120], (s1.get(a) or "")[:120]])
         return mut
+
+    @staticmethod
+    def literal_state(objs):
+        """value (and the identity of the mutable elements) of the argument objects the harness
+        built for this call only: literal lists / dictionaries and lists of pool objects"""
+        out = []
+        for o in objs:
+            if isinstance(o, (list, tuple)) and any(_mutable(x) and not isinstance(x, (list, dict, np.ndarray))
+                                                    for x in o):
+                out.append(["ids"] + [id(x) if _mutable(x) else json.dumps(dg(x)) for x in o])
+            elif isinstance(o, (list, dict, tuple)):
+                out.append(["val", json.dumps(dg(o), sort_keys=True)])
+            else:
+                out.append(None)
+        return out
 
     def exec_lib(self, st, outs):
         k = st[0]
@@ -501,12 +803,23 @@ class Runner:
                 outs.append(["skip"])
                 return
             cfg_now = json.dumps(cfg_snapshot(), sort_keys=True)
+            # argument objects built for this call only (pure pool references are observed in the pool)
+            objs = [None if is_ref(x) else y for x, y in zip(args, a)] + \
+                   [None if is_ref(kw[kk]) else kwr[kk] for kk in sorted(kwr)]
+            lit0 = self.literal_state(objs)
             try:
                 r = OPS[opname](*a, **kwr)
                 val = ("ok", canon_value(r))
             except Exception as e:
                 r = None
                 val = ("exc", type(e).__name__)
+            lit1 = self.literal_state(objs)
+            if lit0 != lit1:
+                names = ["arg%d" % i for i in range(len(a))] + sorted(kwr)
+                for nm, x0, x1 in zip(names, lit0, lit1):
+                    if x0 != x1:
+                        self.rec["mut"].append([nm, "literal", "value" if x0[0] == "val" else "elements",
+                                                str(x0[1:])[:120], str(x1[1:])[:120], opname, "operand", nm])
             rec = ["res", val[0], getattr(r, "name", None) if val[0] == "ok" else val[1]]
             if k == "op" and tag is not None and val[0] == "ok":
                 self.pool[tag] = r
@@ -523,11 +836,13 @@ class Runner:
 
     def run(self, hist):
         restore_config()
+        self.pool0 = self.state0 = None
         trace = []
         for st in hist:
             cfg0 = cfg_snapshot()
             self.rec = {"mut": [], "libcfg": []}
-            pool0 = self.pool_snapshot() if st[0] in CFG_KINDS and st[0] != "with" else None
+            is_cfg = st[0] in CFG_KINDS and st[0] != "with"
+            pool0 = (self.pool0 if self.pool0 is not None else self.pool_snapshot()) if is_cfg else None
             outs = []
             exc = None
             try:
@@ -540,8 +855,10 @@ class Runner:
             diff = sorted([k, v] for k, v in cfg1.items() if cfg0.get(k) != v)
             gone = sorted(k for k in cfg0 if k not in cfg1)
             if pool0 is not None:
-                for m in self.pool_changes(pool0):
-                    self.rec["mut"].append(m + [st[0], "bystander"])
+                pool1 = self.pool_snapshot()
+                for m in self.pool_changes(pool0, pool1):
+                    self.rec["mut"].append(m + [st[0], "bystander", None])
+                self.pool0 = pool1
             rec = {"outs": outs, "diff": diff, "mut": self.rec["mut"], "libcfg": self.rec["libcfg"], "exc": exc}
             if gone:
                 rec["gone"] = gone
@@ -749,14 +1066,31 @@ class C19(Family):
     assumptions = [
         "that the real operations do not mutate their operands is established by the correspondence "
         "(deep snapshots on generated histories), not by a theorem about Python objects",
-        "observable state = public attributes (recursively, arrays by value) of every live object and "
-        "config.defaults; private caches (`_current_params`, `_ifunc`) are observed only through probes",
-        "numpy's global random state and matplotlib's rcParams are not part of the snapshot"]
-    rule = ("random call histories (5-40 steps) over the public API on a pool of live arrays / StateSpace / "
-            "TransferFunction / FRD / nonlinear systems with configuration calls (set_defaults, item "
-            "assignment, nested with-blocks, reset, use_*_defaults, deprecated aliases) interleaved and "
-            "repeated probes; parameter-protocol histories over an interconnected system with recording "
-            "subsystems; a case is non-trivial when it has >= 3 executed calls of >= 2 different kinds")
+        "observable state = public attributes (recursively, arrays by value; for caller-owned arrays also "
+        "address / strides / writeable flag / base, for lists and dictionaries the identity of their mutable "
+        "elements) of every live object, the literal list / dictionary arguments of each call, config.defaults "
+        "(nested values by value), the module-level default tables reset_defaults reads, class-level data "
+        "attributes, numpy's global random state, and around plotting calls matplotlib's rcParams; private "
+        "caches (`_current_params`, `_ifunc`) are observed only through probes",
+        "aliasing between a result and an argument that is never followed by a write is not a violation and is "
+        "not reported"]
+    rule = ("random call histories (5-40 steps) over the public API on a pool of live arrays (plain, views of "
+            "larger arrays, integer / column / Fortran-ordered), lists, dictionaries, StateSpace / TransferFunction / "
+            "FRD / nonlinear systems, time and frequency responses, with configuration calls (set_defaults, item "
+            "assignment, nested with-blocks, reset, use_*_defaults, deprecated aliases) interleaved and repeated "
+            "probes; streams concentrated on functions taking caller-owned arguments (find_operating_point in all "
+            "constraint forms, linearize, responses, interconnect, state feedback / estimator factories, "
+            "identification) and on plotting calls (time responses with inputs and line keywords, Bode / Nyquist "
+            "/ Nichols / singular values / pole-zero / root locus / describing function, figures summarised and "
+            "closed); parameter-protocol histories over an interconnected system with recording subsystems; a "
+            "case is non-trivial when it has >= 3 executed calls of >= 2 different kinds")
+
+    _known = None
+
+    def known(self):
+        if self._known is None:
+            type(self)._known = load_known(self.prop)
+        return self._known
 
     # ------------------------------------------------------------------ lines / execution
     def line(self, case):
@@ -798,15 +1132,24 @@ class C19(Family):
             lib = list(s2 for s2 in flat_steps([st]) if s2[0] in ("new", "op", "probe"))
             # 1. no live object is changed by any call
             if rec["mut"]:
-                s, okind, attr, v0, v1, opname, role = rec["mut"][0]
-                return Verdict(VIOLATES, "step %d (%s) changed attribute %r of live %s %r (%s): %s -> %s ; step = %s"
-                               % (idx, opname, attr, okind, s, role, v0, v1, json.dumps(st)[:300]),
-                               {"kind": "operand-mutated", "op": opname, "attr": attr, "operand": okind})
+                # several objects may change in one call: report one that is not a listed finding
+                cands = []
+                for (s, okind, attr, v0, v1, opname, role, argn) in rec["mut"]:
+                    feat = {"kind": "operand-mutated", "op": opname, "attr": attr, "operand": okind}
+                    if argn is not None and not re.fullmatch(r"arg\d+", argn):
+                        feat["arg"] = argn          # keyword the object was passed under
+                    cands.append((feat, "step %d (%s) changed attribute %r of live %s %r (%s%s): %s -> %s ; step = %s"
+                                  % (idx, opname, attr, okind, s, role, "" if argn is None else " " + argn, v0, v1,
+                                     json.dumps(st)[:300])))
+                feat, detail = next(((f, d) for f, d in cands if match_known(self.known(), f) is None), cands[0])
+                return Verdict(VIOLATES, detail, feat)
             # 2. no library call changes the configuration
             if rec["libcfg"]:
-                opname, key = rec["libcfg"][0]
-                return Verdict(VIOLATES, "step %d: %s changed config.defaults[%r] ; step = %s"
-                               % (idx, opname, key, json.dumps(st)[:300]),
+                opname, key, v0, v1 = rec["libcfg"][0]
+                where = "config.defaults[%r]" % key if " " not in key and not key.startswith("matplotlib.") \
+                    else "package state %r" % key
+                return Verdict(VIOLATES, "step %d: %s changed %s: %s -> %s ; step = %s"
+                               % (idx, opname, where, v0, v1, json.dumps(st)[:300]),
                                {"kind": "config-changed", "op": opname, "key": key})
             # 3. generated and requested names of constructors; repeated probes
             outs_lib = [o for o in rec["outs"] if o[0] in ("res", "skip", "probe")]
@@ -840,6 +1183,16 @@ class C19(Family):
                 flags["what"] = "model-differs"
                 return Verdict(DIFFERS, detail, flags)
             # the property itself, evaluated on the implementation
+            if k == "with" and norm(rec["outs"]) == norm(mod["outs"]):
+                # a reset_defaults / use_legacy_defaults inside the block, after a deprecated alias was
+                # registered: the same defect as at top level (the reset is diverted by the alias)
+                inner = [s2 for s2 in flat_steps(st[2]) if s2[0] in ("reset", "legacy")]
+                if inner and any(s2[0] == "set" and s2[1].startswith("deprecated.")
+                                 for s2 in flat_steps(hist[:idx + 1])):
+                    flags = {"kind": "config", "call": inner[0][0], "alias": True, "what": "reset-not-restored",
+                             "inside_with": True}
+                    return Verdict(VIOLATES, "reset_defaults inside a with block did not restore the import-time "
+                                   "values; " + detail, flags)
             if k == "with" and not body_sets_config(st) and (rec["diff"] or rec.get("gone")):
                 flags["what"] = "with-not-restored"
                 return Verdict(VIOLATES, "configuration not restored after the with statement; " + detail, flags)
@@ -900,6 +1253,9 @@ class C19(Family):
         steps = list(flat_steps(case["hist"]))
         st["len"] = min(10 * (len(steps) // 10), 40)
         st["has_with"] = any(s[0] == "with" for s in steps)
+        st["has_plot"] = any(s[0] in ("op", "probe") and s[2] in PLOT_OPS for s in steps)
+        st["has_view_or_owned_container"] = any(s[0] == "new" and s[2] in ("view", "list", "dict") for s in steps)
+        st["has_find_operating_point"] = any(s[0] in ("op", "probe") and s[2] == "find_operating_point" for s in steps)
         st["has_probe_pair"] = any(r["outs"] and r["outs"][-1][0] == "probe" and r["outs"][-1][1] is not None
                                    for r in impl.get("trace", []))
         return st
